@@ -55,7 +55,7 @@ def sequence(fn, pat=TRANSCRIPT_CALL, with_types=True):
             continue
         f = t["f"]
         lab = None
-        for a in t["args"][1:3]:
+        for a in t["args"][0:3]:
             l = label_of(a)
             if l is not None:
                 lab = l
